@@ -92,7 +92,10 @@ def scenarios(ctx):
                 res = frame(fr, [(b"Content-Encoding", label)], comp, rnd)
                 off = res.index(b"\r\n\r\n") + 4
                 cfg = {"lzmalayers": 1} if cn == "lzma" else {}
-                add("dec/%s.%s.%s" % (pn, cn, fr), res, off, len(res) - off, p, cfg, "decomp", wirelen=len(comp) if fr != "chunked" else None)
+                # a zlib-wrapped stream announced as "deflate" makes the decompressor restart with other window bits: the only well-formed class in which
+                # the open finding F12 (restart re-feeds the current chunk only) can show; it is keyed by this class so that a restart on a VALID
+                # gzip / raw deflate / LZMA stream is never excused
+                add("dec/%s.%s.%s" % (pn, cn, fr), res, off, len(res) - off, p, cfg, "decomp+zlib" if cn == "deflate_zlib" else "decomp", wirelen=len(comp) if fr != "chunked" else None)
     # payloads larger than the decompressor's output buffer, cut where the buffer is exactly full at the end of a call (and one byte around): random
     # (incompressible) bytes so that such offsets exist for every multiple of the buffer size; deflate levels 0 (stored blocks), 1 and 9; also carried in
     # HTTP chunks that END at such an offset
@@ -106,12 +109,13 @@ def scenarios(ctx):
             res = A(200, hdrs=[(b"Content-Encoding", label)], body=comp)
             off = res.index(b"\r\n\r\n") + 4
             ext = sorted({off + o + dlt for o in offs for dlt in (-1, 0, 1)})
-            add("dec/big.%s.l%d.cl" % (cn, lvl), res, off, len(comp), big, {}, "decomp", cuts="few", wirelen=len(comp), extra=ext)
+            kls = "decomp+zlib" if cn == "deflate_zlib" else "decomp"
+            add("dec/big.%s.l%d.cl" % (cn, lvl), res, off, len(comp), big, {}, kls, cuts="few", wirelen=len(comp), extra=ext)
             if offs:
                 parts = [comp[a:b2] for a, b2 in zip([0] + offs, offs + [len(comp)]) if b2 > a]
                 res = A(200, hdrs=[(b"Content-Encoding", label)], chunked=parts)
                 off = res.index(b"\r\n\r\n") + 4
-                add("dec/big.%s.l%d.chunked" % (cn, lvl), res, off, len(res) - off, big, {}, "decomp", cuts="few")
+                add("dec/big.%s.l%d.chunked" % (cn, lvl), res, off, len(res) - off, big, {}, kls, cuts="few")
     text = b"The quick brown fox jumps over the lazy dog. " * 3
     # two layers
     two = gzip.compress(gzip.compress(text))
@@ -119,7 +123,7 @@ def scenarios(ctx):
     add("dec/text.gzip+gzip.cl", res, res.index(b"\r\n\r\n") + 4, len(two), text, {}, "decomp")
     two = zlib.compress(gzip.compress(text))
     res = A(200, hdrs=[(b"Content-Encoding", b"gzip, deflate")], body=two)
-    add("dec/text.gzip+deflate.cl", res, res.index(b"\r\n\r\n") + 4, len(two), text, {}, "decomp")
+    add("dec/text.gzip+deflate.cl", res, res.index(b"\r\n\r\n") + 4, len(two), text, {}, "decomp+zlib")
     # layer limit: three layers announced and applied, two allowed -> the innermost stream stays encoded
     l1 = gzip.compress(text); l3 = gzip.compress(gzip.compress(l1))
     res = A(200, hdrs=[(b"Content-Encoding", b"gzip, gzip, gzip")], body=l3)
@@ -165,7 +169,7 @@ def scenarios(ctx):
         expect = None if r["mismatch"] else layered(r["residual"])
         cuts = "few" if (len(r["stack"]) > 1 and (not q or i % 4 == 0)) else "none"
         add("ce/%d.%s.l%d.z%d" % (i, bytes(r["value"]).decode().replace(" ", "_"), r["ll"], r["zl"]), res, res.index(b"\r\n\r\n") + 4, len(wire_body), expect,
-            {"layers": r["ll"], "lzmalayers": r["zl"]}, "celist", cuts=cuts, wirelen=len(wire_body))
+            {"layers": r["ll"], "lzmalayers": r["zl"]}, "celist+zlib" if ("zlib" in r["stack"] or r["mismatch"]) else "celist", cuts=cuts, wirelen=len(wire_body))
     # request side (request decompression enabled)
     reqz = b"POST /u HTTP/1.1\r\nHost: h\r\nContent-Encoding: gzip\r\nContent-Length: %d\r\n\r\n" % len(gz) + gz
     for cpos in [None] + list(range(len(reqz) - len(gz) - 1, len(reqz), 5 if q else 1)):
